@@ -151,6 +151,16 @@ def run(ctx):
     nsteps = 2 + ch.draw(14, "nsteps")
     for _ in range(nsteps):
         sess.step()
+        if ch.coin(1, 4, "mid-history-serialise"):
+            # a query in the middle of the history (documents are written at any time, not only at the end)
+            e = sess.exts[ch.draw(len(sess.exts), "which-ext")]
+            try:
+                e.to_json()
+                ctx.ev("query", "to_json", e.name)
+                ctx.probe("serialised_mid_history")
+            except Exception as ex:  # noqa: BLE001
+                ctx.violate("serialise", f"to_json-raised:{type(ex).__name__}", {"ext": e.name, "error": str(ex)[:200]})
+                return
         if ctx.profile["shared"] or not any(p.endswith("added_to_second_extension") for p in ctx.probes):
             sess.check_owner()
         if ctx.violations:
